@@ -67,7 +67,8 @@ func (r *Runner) fillExpandConfig(ctx context.Context) {
 			r2 := r.subshell(false)
 			r2.stdout = w
 			r2.stmts(ctx, cs.Stmts)
-			r2.exit.exiting = false // subshells don't exit the parent shell
+			r2.exit.exiting = false   // subshells don't exit the parent shell
+			r2.exit.returning = false // nor do they return from its functions
 			r.lastExpandExit = r2.exit
 			if r2.exit.fatalExit {
 				return r2.exit.err // surface fatal errors immediately
@@ -157,7 +158,8 @@ func (r *Runner) fillExpandConfig(ctx context.Context) {
 					panic(fmt.Sprintf("unexpected process substitution operator: %q", ps.Op))
 				}
 				r2.stmts(ctx, ps.Stmts)
-				r2.exit.exiting = false // subshells don't exit the parent shell
+				r2.exit.exiting = false   // subshells don't exit the parent shell
+				r2.exit.returning = false // nor do they return from its functions
 			}()
 			return path, nil
 		},
@@ -332,7 +334,8 @@ func (r *Runner) stmt(ctx context.Context, st *syntax.Stmt) {
 		go func() {
 			verifYield("bg.start", r2)
 			r2.Run(ctx, &st2)
-			r2.exit.exiting = false // subshells don't exit the parent shell
+			r2.exit.exiting = false   // subshells don't exit the parent shell
+			r2.exit.returning = false // nor do they return from its functions
 			*bg.exit = r2.exit
 			verifYield("bg.end", r2)
 			close(bg.done)
@@ -407,7 +410,8 @@ func (r *Runner) cmd(ctx context.Context, cm syntax.Command) {
 	case *syntax.Subshell:
 		r2 := r.subshell(false)
 		r2.stmts(ctx, cm.Stmts)
-		r2.exit.exiting = false // subshells don't exit the parent shell
+		r2.exit.exiting = false   // subshells don't exit the parent shell
+		r2.exit.returning = false // nor do they return from its functions
 		r.exit = r2.exit
 	case *syntax.CallExpr:
 		// Build new slices, to not modify the caller's AST
@@ -529,7 +533,8 @@ func (r *Runner) cmd(ctx context.Context, cm syntax.Command) {
 			wg.Go(func() {
 				verifYield("pipe.start", r2)
 				r2.stmt(ctx, cm.X)
-				r2.exit.exiting = false // subshells don't exit the parent shell
+				r2.exit.exiting = false   // subshells don't exit the parent shell
+				r2.exit.returning = false // nor do they return from its functions
 				pw.Close()
 				verifYield("pipe.end", r2)
 			})
